@@ -120,6 +120,26 @@ WhileProg(n, m, j) ==
            Ln(90, <<Prt(C(99)), EndS>>)>>,
          [kind |-> "while", expect |-> [a \in 1..n |-> a * 10 + inner(a)] \o <<99>>])
 WhileFamily == {WhileProg(n, m, j) : n \in 0..3, m \in 0..3, j \in 0..4}
+\* IFs nested on one line: every ELSE belongs to the nearest IF before it that has none yet (round-4 seeded change C19d matched
+\* each ELSE one level too early).  a, b, c: the three conditions; form: how many ELSEs / ELSE <line>.
+If(e) == [op |-> "IF", e |-> e, tn |-> 0, en |-> 0, ei |-> 0, col |-> TRUE]
+Else(n) == [op |-> "ELSE", n |-> n, col |-> TRUE]
+NestedIfProg(form, a, b, c) ==
+    LET setup == Ln(10, <<Let("A", C(a)), Let("I", C(b)), Let("J", C(c))>>)
+        tail  == <<Ln(30, <<Prt(C(9)), EndS>>), Ln(100, <<Prt(C(5)), EndS>>), Ln(200, <<Prt(C(6)), EndS>>)>>
+    IN  CASE form = "two" ->       \* IF A THEN IF I THEN 1 ELSE 2 ELSE 3
+               P(<<setup, Ln(20, <<If(V("A")), If(V("I")), Prt(C(1)), Else(0), Prt(C(2)), Else(0), Prt(C(3))>>)>> \o tail,
+                 [kind |-> "nestedif", expect |-> <<IF a = 0 THEN 3 ELSE IF b = 0 THEN 2 ELSE 1, 9>>])
+          [] form = "dangling" ->  \* IF A THEN IF I THEN 1 ELSE 2          (the ELSE belongs to the inner IF)
+               P(<<setup, Ln(20, <<If(V("A")), If(V("I")), Prt(C(1)), Else(0), Prt(C(2))>>)>> \o tail,
+                 [kind |-> "nestedif", expect |-> (IF a = 0 THEN <<>> ELSE IF b = 0 THEN <<2>> ELSE <<1>>) \o <<9>>])
+          [] form = "three" ->     \* IF A THEN IF I THEN IF J THEN 1 ELSE 2 ELSE 3 ELSE 4
+               P(<<setup, Ln(20, <<If(V("A")), If(V("I")), If(V("J")), Prt(C(1)), Else(0), Prt(C(2)), Else(0), Prt(C(3)), Else(0), Prt(C(4))>>)>> \o tail,
+                 [kind |-> "nestedif", expect |-> <<IF a = 0 THEN 4 ELSE IF b = 0 THEN 3 ELSE IF c = 0 THEN 2 ELSE 1, 9>>])
+          [] form = "jump" ->      \* IF A THEN IF I THEN 1 ELSE 100 ELSE 200
+               P(<<setup, Ln(20, <<If(V("A")), If(V("I")), Prt(C(1)), Else(100), Else(200)>>)>> \o tail,
+                 [kind |-> "nestedif", expect |-> IF a = 0 THEN <<6>> ELSE IF b = 0 THEN <<5>> ELSE <<1, 9>>])
+NestedIfFamily == {NestedIfProg(form, a, b, c) : form \in {"two", "dangling", "three", "jump"}, a \in {0, 1}, b \in {0, 1}, c \in {0, 1}}
 (* ---------------- C22: READ / DATA / RESTORE ---------------- *)
 \* four items spread over three DATA statements (one in the middle of a multi-statement line); the program reads r
 \* values, RESTOREs (variant rv) after the j-th, and prints every value read
